@@ -143,6 +143,18 @@ CHECKS = {
             "Oracle: CPython formatting + vlib/refsem.py Interp hooks. Embedded NUL bytes in 's' values and output at the "
             "very edge where an assertion fires are not judged.",
             "DESIGN.md §4 C20"),
+    "C19": ("exploration",
+            "Hypothesis-generated platform descriptions and request histories, model-based (pin->owner dict) decision "
+            "oracle; rendered constraint files of three open-toolchain platforms parsed and compared with the description",
+            "Resource/connector tables with overlapping pins, subsignals, differential pairs, chained connectors, attrs "
+            "and clocks are generated together with request histories (repeats, unknown resources, legal/illegal "
+            "overrides); every call's accept/refuse decision and every granted port (pins in order through the connector "
+            "chain, inversion, direction, group structure) is compared with a model whose allocation changes only on "
+            "success. For IceStorm/Trellis/Apicula the build plan is rendered offline and the .pcf/.lpf/.cst parsed: each "
+            "buffered port bit must be located at exactly its declared pin once, and each clock constrained to its "
+            "declared period once.",
+            "Model and constraint-file readers in vchecks/c19.py. Only templates that render without vendor tools are covered.",
+            "DESIGN.md §4 C19"),
 }
 
 TITLES = {}
